@@ -95,13 +95,16 @@ pub struct Gen<'a> {
     pub max_depth: usize,
     /// allow constructs whose SPARQL error semantics differ from lexical evaluation
     pub allow_edge: bool,
+    /// maximum number of elements of the top group / of nested groups
+    pub max_top: usize,
+    pub max_nested: usize,
 }
 
 const POOL: [&str; 5] = ["a", "b", "c", "d", "e"];
 
 impl<'a> Gen<'a> {
     pub fn new(r: &'a mut Rng, ds: &Dataset, n_ent: usize, n_pred: usize, n_num: usize) -> Gen<'a> {
-        Gen { r, n_ent, n_pred, n_num, graphs: ds.graphs.iter().cloned().collect(), features: BTreeSet::new(), fresh: 0, max_depth: 3, allow_edge: true }
+        Gen { r, n_ent, n_pred, n_num, graphs: ds.graphs.iter().cloned().collect(), features: BTreeSet::new(), fresh: 0, max_depth: 3, allow_edge: true, max_top: 4, max_nested: 3 }
     }
 
     fn fresh(&mut self, p: &str) -> String {
@@ -311,7 +314,7 @@ impl<'a> Gen<'a> {
     pub fn gen_group(&mut self, depth: usize, top: bool) -> (Vec<P>, Scope) {
         let mut elems: Vec<P> = vec![];
         let mut sc = Scope::new();
-        let n = if top { self.r.range(1, 4) } else { self.r.range(1, 3) };
+        let n = if top { self.r.range(1, self.max_top) } else { self.r.range(1, self.max_nested) };
         for i in 0..n {
             let w: [usize; 8] = if depth >= self.max_depth { [100, 0, 0, 0, 0, 6, 0, 6] } else { [50, 10, 5, 9, 9, 6, 7, 6] };
             match self.r.weighted(&w) {
@@ -404,22 +407,32 @@ impl<'a> Gen<'a> {
                         join_scope(&mut sc, &s);
                         elems.push(p);
                     }
+                    // M-TERM: a CONCAT result is a literal, so it must not LOOK like an IRI in the
+                    // untyped store. Either it starts with '#' (a plain string of its own kind),
+                    // or it is assembled from digits only (a number).
                     let avail: Vec<(String, VInfo)> = sc.iter().map(|(k, v)| (k.clone(), *v)).collect();
+                    let numeric_mode = self.r.chance(1, 3);
                     let na = self.r.range(1, 3);
                     let mut args = vec![];
+                    if !numeric_mode {
+                        args.push(BindArg::Str("#".into()));
+                    }
                     for _ in 0..na {
-                        if !avail.is_empty() && self.r.chance(2, 3) {
-                            let (v, info) = self.r.pick(&avail).clone();
+                        let cands: Vec<&(String, VInfo)> = avail.iter().filter(|(_, i)| !numeric_mode || (i.kind == Kind::Num)).collect();
+                        if !cands.is_empty() && self.r.chance(2, 3) {
+                            let (v, info) = (*self.r.pick(&cands)).clone();
                             if !info.certain {
                                 if !self.allow_edge {
-                                    args.push(BindArg::Str("x".into()));
+                                    args.push(BindArg::Str("1".into()));
                                     continue;
                                 }
                                 self.features.insert("edge:bind_argument_possibly_unbound".into());
                             }
                             args.push(BindArg::Var(v));
+                        } else if numeric_mode {
+                            args.push(BindArg::Str(self.r.pick(&["1", "2", "0"]).to_string()));
                         } else {
-                            args.push(BindArg::Str(self.r.pick(&["w", "1", "-", "http://k/e"]).to_string()));
+                            args.push(BindArg::Str(self.r.pick(&["w", "1", "-", "x y"]).to_string()));
                         }
                     }
                     let out = self.fresh("c");
@@ -427,7 +440,7 @@ impl<'a> Gen<'a> {
                         BindArg::Str(_) => true,
                         BindArg::Var(v) => sc.get(v).map(|i| i.certain).unwrap_or(false),
                     });
-                    sc.insert(out.clone(), VInfo { certain, kind: Kind::Any });
+                    sc.insert(out.clone(), VInfo { certain, kind: if numeric_mode { Kind::Num } else { Kind::Str } });
                     elems.push(P::Bind(args, out));
                 }
             }
